@@ -30,7 +30,8 @@ theorem slotsOK_of_valuesOK {o : Out} (hfe : FromEval o) (h : ValuesOK o) : Slot
   show BlockHyp p.1 p.2
   cases hk : slotKind p.1 with
   | doc =>
-    unfold BlockHyp
+    refine ⟨?_, fun hb => by simp [boneLine, hk] at hb⟩
+    unfold BlockHypCore
     rw [hk]
     obtain ⟨env1, hev⟩ := hfe p hp
     obtain ⟨e1, he1⟩ := unfilter_last (fs := [.escapeDocstring]) (f := .indent 4) (by rw [slotKind_doc hk]; rfl)
@@ -54,16 +55,17 @@ theorem block_check_sound (goodP : BSt → Bool) (assume : Facts) (enum : List E
 /-! ### the value invariants are decidable for a concrete rendering (used for non-vacuity examples) -/
 
 def noBreakB (v : List Char) : Bool := v.all (fun c => !isBreak c)
+def noNLB (v : List Char) : Bool := v.all (fun c => c != '\n')
 
 def wordHypB (h : Bool) (v : List Char) : Bool :=
-  noBreakB v && v.head? != some ' ' && !startsClass v && (!h || !v.contains '#')
+  noNLB v && v.head? != some ' ' && !startsClass v && (!h || !v.contains '#')
 
 def blockHypB (e : Expr) (v : List Char) : Bool :=
-  match slotKind e with
-  | .word h => wordHypB h v
-  | .line => noBreakB v
-  | .doc => docShape false v
-  | .none => true
+  (match slotKind e with
+   | .word h => wordHypB h v
+   | .line => noNLB v
+   | .doc => docShape false v
+   | .none => true) && (!boneLine e || noBreakB v)
 
 def valuesOKb (o : Out) : Bool := o.slots.all (fun p => slotKind p.1 == .doc || blockHypB p.1 p.2)
 
@@ -72,29 +74,77 @@ theorem noBreakB_sound {v : List Char} (h : noBreakB v = true) : NoBreak v := by
   have := List.all_eq_true.mp h c hc
   simpa using this
 
+theorem noNLB_sound {v : List Char} (h : noNLB v = true) : NoNL v := by
+  intro c hc
+  have := List.all_eq_true.mp h c hc
+  simpa using this
+
+theorem blockHypB_sound {e : Expr} {v : List Char} (h : blockHypB e v = true) : BlockHyp e v := by
+  unfold blockHypB at h
+  simp only [Bool.and_eq_true, Bool.or_eq_true, Bool.not_eq_true'] at h
+  obtain ⟨h1, hb⟩ := h
+  refine ⟨?_, ?_⟩
+  · unfold BlockHypCore
+    cases hk : slotKind e with
+    | word hd =>
+      simp only [hk] at h1 ⊢
+      unfold wordHypB at h1
+      simp only [Bool.and_eq_true, Bool.not_eq_true', Bool.or_eq_true, bne_iff_ne, ne_eq] at h1
+      obtain ⟨⟨⟨h1, h2⟩, h3⟩, h4⟩ := h1
+      refine ⟨noNLB_sound h1, h2, h3, ?_⟩
+      intro hh hm
+      rcases h4 with h4 | h4
+      · rw [hh] at h4; cases h4
+      · have : v.contains '#' = true := by simpa using hm
+        rw [this] at h4; cases h4
+    | line => simp only [hk] at h1 ⊢; exact noNLB_sound h1
+    | doc => simp only [hk] at h1 ⊢; exact h1
+    | none => simp only [hk]
+  · intro hbl
+    rcases hb with hb | hb
+    · rw [hbl] at hb; cases hb
+    · exact noBreakB_sound hb
+
 theorem valuesOKb_sound {o : Out} (h : valuesOKb o = true) : ValuesOK o := by
   intro p hp hnd
   have := List.all_eq_true.mp h p hp
   simp only [Bool.or_eq_true, beq_iff_eq] at this
   rcases this with h1 | h1
   · exact absurd h1 hnd
-  · unfold blockHypB at h1
-    unfold BlockHyp
-    cases hk : slotKind p.1 with
-    | word hd =>
-      simp only [hk] at h1 ⊢
-      unfold wordHypB at h1
-      simp only [Bool.and_eq_true, Bool.not_eq_true', Bool.or_eq_true, bne_iff_ne, ne_eq] at h1
-      obtain ⟨⟨⟨h1, h2⟩, h3⟩, h4⟩ := h1
-      refine ⟨noBreakB_sound h1, h2, h3, ?_⟩
-      intro hh hm
-      rcases h4 with h4 | h4
-      · rw [hh] at h4; cases h4
-      · have : p.2.contains '#' = true := by simpa using hm
-        rw [this] at h4; cases h4
-    | line => simp only [hk] at h1 ⊢; exact noBreakB_sound h1
-    | doc => simp only [hk] at h1 ⊢; exact h1
-    | none => simp only [hk]
+  · exact blockHypB_sound h1
+
+/-! ### the hypothesis in two parts, for the observer at the render boundary
+
+`blockHypB` = everything but the `#` clause ∧ no `#` in a value of a class-header site.  The second
+part is a limit of the block automaton, not an invariant of the generator: the automaton reads a
+`#` in a header line as the start of a comment, although a type hint may legitimately carry one
+inside a string literal (`class R(RootModel[Literal['#']]):`).  Renderings with such a value are
+outside the scope of the class theorems (they are counted, and covered by `ast.parse` only); the
+first part is what every written rendering must satisfy. -/
+
+def wordHypExceptHashB (v : List Char) : Bool :=
+  noNLB v && v.head? != some ' ' && !startsClass v
+
+def blockHypExceptHashB (e : Expr) (v : List Char) : Bool :=
+  (match slotKind e with
+   | .word _ => wordHypExceptHashB v
+   | .line => noNLB v
+   | .doc => docShape false v
+   | .none => true) && (!boneLine e || noBreakB v)
+
+def headerHashB (e : Expr) (v : List Char) : Bool :=
+  match slotKind e with
+  | .word true => v.contains '#'
+  | _ => false
+
+theorem blockHypB_split (e : Expr) (v : List Char) :
+    blockHypB e v = (blockHypExceptHashB e v && !headerHashB e v) := by
+  unfold blockHypB blockHypExceptHashB headerHashB wordHypB wordHypExceptHashB
+  cases slotKind e with
+  | word h => cases h <;> simp [Bool.and_comm, Bool.and_left_comm, Bool.and_assoc]
+  | line => simp
+  | doc => simp
+  | none => simp
 
 /-- the final state of the block automaton on a text -/
 def blockOf (text : List Char) : BSt := blockAuto.run BSt.init text
